@@ -56,12 +56,14 @@ pub fn configs(prop: Prop, thorough: bool) -> Vec<(E1Cfg, Vec<Bound>)> {
                 let mut c = E1Cfg::base(prop, "c01-2app-2req-N2", 2, vec![vec![r4.clone(), w3.clone()], vec![w3.clone(), r4.clone()]]);
                 c.reorder = true;
                 v.push((c, b2.clone()));
+                // three application tasks: a finer ladder, so that some level completes in the budget
+                let ladder = vec![Bound::new(0, 0), Bound::new(1, 0), Bound::new(1, 1), Bound::new(2, 1), Bound::new(2, 2)];
                 let mut c = E1Cfg::base(prop, "c01-3app-1req-N2", 2, vec![vec![r4.clone()], vec![w3.clone()], vec![m2.clone()]]);
                 c.reorder = true;
-                v.push((c, b2.clone()));
+                v.push((c, ladder.clone()));
                 let mut c = E1Cfg::base(prop, "c01-3app-1req-N4", 4, vec![vec![r4.clone()], vec![w3.clone()], vec![r4.clone()]]);
                 c.reorder = true;
-                v.push((c, b2.clone()));
+                v.push((c, ladder));
             }
         }
         Prop::C02 => {
@@ -94,7 +96,7 @@ pub fn configs(prop: Prop, thorough: bool) -> Vec<(E1Cfg, Vec<Bound>)> {
                 c.send_faults = true;
                 c.reorder = true;
                 c.duplicates = true;
-                v.push((c, b_quick.clone()));
+                v.push((c, vec![Bound::new(0, 0), Bound::new(1, 0), Bound::new(0, 1), Bound::new(1, 1), Bound::new(2, 1)]));
                 let mut c = E1Cfg::base(prop, "c02-2app-2req-N2-faults", 2, vec![vec![r4.clone(), w3.clone()], vec![m2.clone(), r4.clone()]]);
                 c.send_faults = true;
                 c.reorder = true;
